@@ -1,6 +1,6 @@
 # C19 Value generators follow the iterator protocol and their formulas
 ASSUMPTIONS = ["generators built through their C constructors with concrete bounds (linear: 0..n-1 step 1; boundary: 10/20/30), element count symbolic",
-               "text descriptions (mpt_iterator_create) and the factor/poly/values/file generators are outside the built queries"]
+               "text descriptions: the linear/boundary profile forms with the number reader as a contract stub; mpt_iterator_create and the poly/values/file generators are outside the built queries"]
 U = ["mptplot/values/iterator_linear.c", "mptplot/values/iterator_boundary.c", "mptplot/values/iterator_factor.c"]
 FP = [(r"convertable\.convert", ["iterConv", "iterBoundaryConv", "iterFactorConv"]), (r"_vptr\)\.value", ["iterValue", "iterBoundaryValue", "iterFactorValue"]),
       (r"_vptr\)\.advance", ["iterAdvance", "iterBoundaryAdvance", "iterFactorAdvance"]), (r"_vptr\)\.reset", ["iterReset", "iterBoundaryReset", "iterFactorReset"]),
@@ -16,4 +16,13 @@ def queries(tier):
                     flags=["--memory-leak-check"], stubs=["libc.c", "c19_unused.c"],
                     bounds="element count 2..4 symbolic; %d calls from {value, advance, reset, clone-and-switch}" % k,
                     outside="more than %d calls; symbolic bounds (floating-point formulas); other generator kinds" % k))
+    heads = (0, 3, 5) if tier == "quick" else range(8)
+    for h in heads:
+        qs.append(Q("profile_text_h%d" % h, "C19/profile.c", units=["mptplot/values/iterator_profile.c", "mptcore/types/type_traits.c", "mptcore/misc/identifier.c",
+                                                                "mptcore/array/array_traits.c", "mptcore/meta/meta_reference_traits.c", "mptcore/event/command_traits.c", "mptcore/array/array_clone.c"],
+                    harness_defines={"HEADSEL": h, "TL": 4, "V_NMAX": 64}, unwind_default=16, stubs=["libc.c"],
+                    flags=["--max-field-sensitivity-array-size", "100"],
+                    bounds="profile description = fixed keyword/separator form #%d + 4 symbolic non-NUL bytes; number reader mpt_cdouble() by contract "
+                           "(refuses, or consumes 1..remaining bytes and yields a symbolic double); grid length 0..3; constructors are recording stubs" % h,
+                    outside="number syntax (mpt_cdouble), poly/file descriptions, mpt_iterator_create() dispatch"))
     return qs
